@@ -166,9 +166,9 @@ func c03R2(c *Ctx) {
 		}
 	}
 	c.WhoMay("C03.R2", "write IPStatusDeleting", groupStores(sites), map[string]string{
-		nodeCtlPkg + ".releaseUnUsedIP":         "pool trimming",
+		nodeCtlPkg + ".releaseUnUsedIP":        "pool trimming",
 		nodeCtlPkg + ".ReconcileNode.assignIP": "addresses returned together with an error (C08.R4)",
-		nodeCtlPkg + ".convertIPSet":            "addresses the cloud reports as not usable",
+		nodeCtlPkg + ".convertIPSet":           "addresses the cloud reports as not usable",
 	})
 	c.Floor("C03.R2", "stores of IPStatusDeleting", 5, len(sites))
 	n := 0
@@ -243,7 +243,7 @@ func c03R2(c *Ctx) {
 		}
 	}
 	c.WhoMay("C03.R2", "mark an interface Deleting", groupStores(eniSites), map[string]string{
-		nodeCtlPkg + ".releaseUnUsedIP":          "pool trimming (guarded above)",
+		nodeCtlPkg + ".releaseUnUsedIP":         "pool trimming (guarded above)",
 		nodeCtlPkg + ".ReconcileNode.createENI": "roll-back record of an interface that never became usable (C08.R3)",
 	})
 }
@@ -365,9 +365,9 @@ func c03R3(c *Ctx) {
 		}
 	}
 	c.WhoMay("C03.R3", "detach / delete an interface", groupCalls(sites), map[string]string{
-		nodeCtlPkg + ".ReconcileNode.handleStatus":  "interface in Deleting / Detaching state",
-		nodeCtlPkg + ".ReconcileNode.syncWithAPI":   "interface no longer attached to the instance and Available",
-		nodeCtlPkg + ".ReconcileNode.createENI":     "roll-back of a failed creation",
+		nodeCtlPkg + ".ReconcileNode.handleStatus": "interface in Deleting / Detaching state",
+		nodeCtlPkg + ".ReconcileNode.syncWithAPI":  "interface no longer attached to the instance and Available",
+		nodeCtlPkg + ".ReconcileNode.createENI":    "roll-back of a failed creation",
 	})
 	c.Floor("C03.R3", "detach/delete call sites", 4, len(sites))
 	eniDel := constLit(p, clientPkg, "ENIStatusDeleting")
@@ -467,7 +467,7 @@ func c03R4(c *Ctx) {
 		m[s.fn] = append(m[s.fn], s.node)
 	}
 	c.WhoMay("C03.R4", "write a 'deleted' runtime status", m, map[string]string{
-		eniPkg + ".CRDV2.syncNodeRuntime":          "flushes the DELs the daemon processed",
+		eniPkg + ".CRDV2.syncNodeRuntime":              "flushes the DELs the daemon processed",
 		daemonPkg + ".networkService.cleanRuntimeNode": "pods verified gone",
 	})
 	c.Floor("C03.R4", "writers of the 'deleted' status", 2, len(sites))
